@@ -149,8 +149,8 @@ type world struct {
 }
 
 func newWorld(c cfg) *world {
-	_, sub := disabled(c.Mask)
-	return &world{ag: statsd.VerifWiredAggregator(statsd.Server{PercentThreshold: c.Pcts, ExpiryIntervalCounter: 0, ExpiryIntervalGauge: 0, ExpiryIntervalSet: 0, ExpiryIntervalTimer: 0, DisabledSubTypes: sub, HistogramLimit: c.Limit})} // expiry 0: series persist, so idle flushes are reachable
+	dkeys, _ := disabled(c.Mask)
+	return &world{ag: statsd.VerifWiredAggregator(*verifServer([]string{verifPctArg(c.Pcts), "--expiry-interval=0s", fmt.Sprintf("--timer-histogram-limit=%d", c.Limit)}, dkeys))} // expiry 0: series persist, so idle flushes are reachable
 }
 
 var seenFlushed = map[string]bool{}
